@@ -143,7 +143,11 @@ func (r *reference) resolveRef(cfg *Config, opts *options) (value, error) {
 }
 
 func (r *reference) resolveEnv(cfg *Config, opts *options) (string, parse.Config, error) {
-	var err error
+	// Without a resolver that knows the name the reference stays unresolved.
+	// This must be an error: with a nil error the callers would continue with
+	// an empty string, silently turning an unresolvable (or cyclic) reference
+	// into an empty value.
+	var err error = ErrMissing
 
 	if len(opts.resolvers) > 0 {
 		key := r.Path.String()
